@@ -14,9 +14,13 @@ Definition patch_commit (w : world) (n : name) : option oid :=
 (* stack manipulation (and refresh, which edits only the tree): every stg command of the
    model except `new` (creates an identity), `edit` (changes an identity on purpose), `pick`
    (copies the identity of its source, see C08_pick_identity),
-   undo / redo / reset (restore recorded commits, see C08_restore_reuses_commits) and repair *)
+   undo / redo / reset (restore recorded commits, see C08_restore_reuses_commits), repair, and
+   `refresh -p <patch>`: when its second transaction stops (a conflicting push onto an applied
+   patch further down, exit 3) or the change does not apply to an unapplied patch (exit 0), the
+   temporary patch `refresh-temp` - a new identity - stays in the stack *)
 Definition manip (c : cmd) : bool :=
   match c with
+  | CRefresh (Some _)
   | CNew _ _ _ | CEdit _ _ _ | CSquash _ _ _ _ | CPick _ _ _ | CUndo _ _ | CRedo _ _ | CReset _ _ _ | CRepair
   | GEdit _ _ | GCommit _ _ | GAmend _ _ | GResetHard _ | GMerge _ | GConfigApc _ => false
   | _ => true
